@@ -36,6 +36,10 @@ var c04Probes = []struct{ name, body, params string }{
 		"{log}{let $l1}a{/let}{let $l2}b{/let}{$l1}{$l2}{/log}{foreach $i in $ls}{let $w}<{$i}{let $v}({$i}){/let}{$v}>{/let}{$w|noAutoescape}{let $u}{$w}{/let}{$u|noAutoescape}{/foreach}", "s a ls"},
 	{"empty-blocks", "[{switch 1}{case 1}{case 2}two{default}other{/switch}|{switch 'x'}{case 'y'}{default}{/switch}|{switch 2}{case 1}{case 2, 3}{default}d{/switch}|{if true}{else}no{/if}|{if false}{elseif true}{else}no{/if}|" +
 		"{foreach $i in [1]}{ifempty}e{/foreach}|{foreach $i in $e}{ifempty}{/foreach}|{let $z}{/let}{$z}|{call .probe_callee}{param s}{/param}{/call}|{msg desc=\"d\"}{plural 1}{case 1}{default}many{/plural}{/msg}]", "e"},
+	// characters beyond U+FFFF under truncate: the limit counts UTF-16 units in both backends and never keeps half a pair
+	{"truncate-astral", "{'a😀b'|truncate:1}|{'a😀b'|truncate:2}|{'a😀b'|truncate:3,false}|{'😀😀😀😀😀'|truncate:5}|{'😀😀😀😀😀'|truncate:6,false}|" +
+		"{'😀😀😀😀😀'|truncate:7,false}|{'x𝒳y𝒳z𝒳'|truncate:2}|{'x𝒳y𝒳z𝒳'|truncate:5}|{'x𝒳y𝒳z𝒳'|truncate:6,false}|{'x𝒳y𝒳z𝒳'|truncate:8,false}|" +
+		"{'abcd😀ghij'|truncate:8}|{'abcd😀ghij'|truncate:5,false}|{'abcd😀ghij'|truncate:9}", ""},
 	{"msg-plain", "{msg desc=\"d\"}Hello <b>{$s}</b>, you have {$a} items{/msg}{msg desc=\"p\"}{plural $a}{case 0}none{case 1}one{default}{$a} many{/plural}{/msg}", "s a"},
 }
 
@@ -56,6 +60,11 @@ func c04ProbeFile() srcFile {
 func c04Opts(r *fw.Rand, tier string) gen.Opts {
 	o := c02Opts(r, tier)
 	o.Subset, o.ErrPlants, o.MarkupDirs, o.Astral = true, false, true, false
+	// characters beyond U+FFFF: truncate counts them alike in both backends (UTF-16 units, never half a pair),
+	// insertWordBreaks does not (nor do the official backends), so a program has one or the other
+	if r.Bool() {
+		o.Astral, o.NoWordBreaks = true, true
+	}
 	return o
 }
 
@@ -169,11 +178,14 @@ func init() {
 				if pass == 0 || i%3 == 0 {
 					nid := 9000
 					pd := map[string]ref.Value{}
+					astral := g.O.Astral
+					g.O.Astral = false // (one probe puts $t under insertWordBreaks)
 					for _, p := range gen.ParamPool {
 						if p.Name != "e" || ctx.Rng.Bool() {
 							pd[p.Name] = g.Data(p.Ty, &nid)
 						}
 					}
+					g.O.Astral = astral
 					pd["e"] = ref.Value{K: ref.KList, ID: 9999}
 					for _, p := range c04Probes {
 						targets = append(targets, target{"probe." + strings.ReplaceAll(p.name, "-", "_"), pd})
